@@ -1,0 +1,115 @@
+//go:build verif
+
+package hash
+
+import (
+	"encoding/json"
+	"strconv"
+	"testing"
+
+	"github.com/gotid/god/internal/verifdrv"
+)
+
+type verifStructNode struct {
+	ID int
+}
+
+type verifStringerNode struct {
+	id int
+}
+
+func (n *verifStringerNode) String() string { return "stringer-" + strconv.Itoa(n.id) }
+
+type verifOp struct {
+	Op   string `json:"op"` // add | addw | addr | remove
+	Node int    `json:"node"`
+	Arg  int    `json:"arg"`
+}
+
+type verifCase struct {
+	Replicas int       `json:"replicas"`
+	Ops      []verifOp `json:"ops"`
+	Probes   []string  `json:"probes"`
+	Custom   bool      `json:"custom"`
+}
+
+func verifNode(cache map[int]any, id int) any {
+	if v, ok := cache[id]; ok {
+		return v
+	}
+	var v any
+	switch id % 3 {
+	case 0:
+		v = "node-" + strconv.Itoa(id)
+	case 1:
+		v = verifStructNode{ID: id}
+	default:
+		v = &verifStringerNode{id: id}
+	}
+	cache[id] = v
+	return v
+}
+
+// TestVerifDriver drives ConsistentHash with membership histories and probes every key after every
+// operation. The hash function is the default one (murmur3) wrapped so that it can be tabulated.
+func TestVerifDriver(t *testing.T) {
+	verifdrv.Run(t, func(raw json.RawMessage) any {
+		var c verifCase
+		if err := json.Unmarshal(raw, &c); err != nil {
+			return map[string]any{"error": err.Error()}
+		}
+		var h *ConsistentHash
+		if c.Custom {
+			h = NewCustomConsistentHash(c.Replicas, Hash)
+		} else {
+			h = NewConsistentHash()
+		}
+		nodes := map[int]any{}
+		ids := map[any]int{}
+		results := make([][]int, 0, len(c.Ops))
+		for _, op := range c.Ops {
+			n := verifNode(nodes, op.Node)
+			ids[n] = op.Node
+			switch op.Op {
+			case "add":
+				h.Add(n)
+			case "addw":
+				h.AddWithWeight(n, op.Arg)
+			case "addr":
+				h.AddWithReplicas(n, op.Arg)
+			case "remove":
+				h.Remove(n)
+			}
+			row := make([]int, len(c.Probes))
+			for i, k := range c.Probes {
+				got, ok := h.Get(k)
+				if !ok {
+					row[i] = -1
+				} else if id, known := ids[got]; known {
+					row[i] = id
+				} else {
+					row[i] = -2
+				}
+			}
+			results = append(results, row)
+		}
+		// tabulate the hash of every virtual node the history can have created, and of the probes
+		table := map[string][]uint64{}
+		for id, n := range nodes {
+			r := repr(n)
+			hs := make([]uint64, h.replicas)
+			for i := 0; i < h.replicas; i++ {
+				hs[i] = Hash([]byte(r + strconv.Itoa(i)))
+			}
+			table[strconv.Itoa(id)] = hs
+		}
+		ph := make([]uint64, len(c.Probes))
+		ih := make([]uint64, len(c.Probes))
+		for i, k := range c.Probes {
+			ph[i] = Hash([]byte(repr(k)))
+			ih[i] = Hash([]byte(innerRepr(k)))
+		}
+		return map[string]any{"replicas": h.replicas, "results": results, "vhash": table, "phash": ph, "ihash": ih,
+			"nkeys": len(h.keys), "nring": len(h.ring)}
+	})
+}
